@@ -27,6 +27,7 @@ DEFAULT = {
     "p_q": 0.3,            # second filter-restricted state q
     "p_b_in_filter": 0.3,  # the filter also restricts the discrete choice b
     "p_reduction_aux": 0.2,   # an auxiliary function written as jnp.sum(jnp.array([...])), used by utility only
+    "p_lower_bound": 0.1,      # a constraint kmin <= c cutting off the LOW end of the consumption grid (ties with excluded points)
     "p_near_tie": 0.15,        # large utility level + tiny dyadic premia on the discrete choices: near-ties (relative 1e-5)
     "p_dead_label": 0.0,       # (models without continuous state) the last label of h admits no choice: value -inf, reachable
     "p_state_only_filter": 0.15,  # the filter restricts states only: no restricted choice, every discrete choice unrestricted
@@ -399,6 +400,10 @@ def _rand_model_once(rng, P):  # noqa: C901, PLR0912, PLR0915
                 funcs.append(mkfunc("bc_constraint", "constraint", _shuf(rng, cargs, P), ["le", lhs, var("w")]))
                 params["bc_constraint"] = {}
             feat["F9"] = True
+            if has("p_lower_bound"):
+                funcs.append(mkfunc("lb_constraint", "constraint", _shuf(rng, ["c", "kmin"], P), ["le", var("kmin"), var("c")]))
+                params["lb_constraint"] = {"kmin": q(rng.choice([F(1, 2), F(3, 2)]))}
+                feat["lower_bound"] = True
             if has("p_infeasible_last"):
                 funcs.append(mkfunc("pos_constraint", "constraint", ["c"], ["le", const(F(1, 2)), var("c")]))
                 params["pos_constraint"] = {}
